@@ -100,3 +100,7 @@ func RunC14(c *Ctx) {
 	}
 	runC14Stacks(c)
 }
+
+func decodeQuiet(data []byte) (*dec.Info, []dec.Finding) {
+	return dec.Decode(data, dec.Options{})
+}
